@@ -61,7 +61,7 @@ CONSTANTS
   MaxStarts, MaxStops, MaxFaults, MaxOutside, MaxUnhealthy, MaxConnEv, MaxApi,
   StopKinds,   \* subset of {"stop", "ctx", "ctxdel", "ctxabort"}
   OutKinds,    \* outside interference: subset of {"del", "other", "as", "malformed", "empty"}
-  Faults,      \* subset of {"fail", "loseack", "partition", "drop", "hang"}
+  Faults,      \* subset of {"fail", "failwatch" (Watch calls only), "loseack", "partition", "drop"}
   Dev          \* deviations switched on
 
 ASSUME /\ TTL >= 3 * H /\ NR \in 1..3
@@ -112,7 +112,8 @@ G0 == [starts |-> 0, stops |-> 0, faults |-> 0, outside |-> 0, unhealthy |-> 0, 
        tokens |-> {}, viol |-> {}, overflow |-> FALSE,
        calm |-> TRUE,     \* C02 assumptions hold so far
        quiet |-> TRUE,    \* C07 assumptions hold so far
-       vacSince |-> -1]   \* ghost: since when the record is vacant while a ready candidate exists (C06)
+       vacSince |-> -1,   \* ghost: since when the record is vacant while a ready candidate exists (C06)
+       lastFault |-> -1]  \* ghost: when the latest fault was injected
 
 Init ==
   /\ now = 0 /\ rec = Absent /\ seq = 0 /\ ntok = 0 /\ orph = {}
@@ -225,8 +226,9 @@ ApplyRes(i, o) ==
     [] o.kind = "delete" -> [ok |-> TRUE, res |-> seq + 1, err |-> None, mut |-> TRUE]
     [] o.kind = "watch" -> [ok |-> TRUE, res |-> 0, err |-> None, mut |-> FALSE]
 
-\* a follower whose watch loop is established and that can reach the store
-ReadyCand(j) == el[j].life = "running" /\ ~el[j].part /\ ~el[j].leader /\ th[j]["w"].pc \in {"loop", "chk"}
+\* a follower that can reach the store
+\* (whether or not its watch loop is alive: an instance that lost its watch loop to a transient failure is still a candidate)
+ReadyCand(j) == el[j].life = "running" /\ ~el[j].part /\ ~el[j].leader /\ el[j].state = "FOLLOWER" /\ th[j]["acq"].pc = "idle"
 
 \* effect on rec/seq/wq/g/el of a successful mutation by i
 Mutate(i, o) ==
@@ -286,10 +288,10 @@ OrphDrop(o) == o \in orph /\ orph' = orph \ {o} /\ UNCHANGED <<now, rec, seq, nt
 \* faults
 StoreFail(i, s, cls) ==
   LET o == T(i, s).op IN
-  /\ "fail" \in Faults /\ g.faults < MaxFaults
+  /\ ("fail" \in Faults \/ ("failwatch" \in Faults /\ s = "w" /\ T(i, s).pc = "open")) /\ g.faults < MaxFaults
   /\ o.ph = "iss"
   /\ th' = [th EXCEPT ![i][s].op = [o EXCEPT !.ph = "app", !.ok = FALSE, !.err = cls]]
-  /\ g' = [g EXCEPT !.faults = @ + 1, !.calm = FALSE, !.quiet = FALSE]
+  /\ g' = [g EXCEPT !.faults = @ + 1, !.calm = FALSE, !.quiet = FALSE, !.lastFault = now]
   /\ UNCHANGED <<now, rec, seq, ntok, wq, el, orph>>
 
 LoseAck(i, s) ==
@@ -297,13 +299,13 @@ LoseAck(i, s) ==
   /\ "loseack" \in Faults /\ g.faults < MaxFaults
   /\ o.ph = "app" /\ o.ok /\ o.kind \in {"create", "update", "delete"}
   /\ th' = [th EXCEPT ![i][s].op = [o EXCEPT !.ok = FALSE, !.err = "timeout", !.res = 0, !.lost = TRUE]]
-  /\ g' = [g EXCEPT !.faults = @ + 1, !.calm = FALSE, !.quiet = FALSE]
+  /\ g' = [g EXCEPT !.faults = @ + 1, !.calm = FALSE, !.quiet = FALSE, !.lastFault = now]
   /\ UNCHANGED <<now, rec, seq, ntok, wq, el, orph>>
 
 Partition(i) ==
   /\ "partition" \in Faults /\ g.faults < MaxFaults /\ ~el[i].part /\ el[i].life = "running"
   /\ el' = [el EXCEPT ![i].part = TRUE]
-  /\ g' = [g EXCEPT !.faults = @ + 1, !.calm = FALSE, !.quiet = FALSE]
+  /\ g' = [g EXCEPT !.faults = @ + 1, !.calm = FALSE, !.quiet = FALSE, !.lastFault = now]
   /\ UNCHANGED <<now, rec, seq, ntok, wq, th, orph>>
 Heal(i) ==
   /\ el[i].part /\ el' = [el EXCEPT ![i].part = FALSE]
@@ -318,7 +320,7 @@ PartTimeout(i, s) ==
 DropEvent(i) ==
   /\ "drop" \in Faults /\ g.faults < MaxFaults /\ wq[i] # <<>>
   /\ wq' = [wq EXCEPT ![i] = Tail(@)]
-  /\ g' = [g EXCEPT !.faults = @ + 1, !.calm = FALSE, !.quiet = FALSE]
+  /\ g' = [g EXCEPT !.faults = @ + 1, !.calm = FALSE, !.quiet = FALSE, !.lastFault = now]
   /\ UNCHANGED <<now, rec, seq, ntok, el, th, orph>>
 
 \* an outside party (operator, other software, an instance of another deployment) deletes or rewrites the record
@@ -530,15 +532,27 @@ WatchOpenResp(i) ==
   /\ t.pc = "open" /\ o.ph = "app"
   /\ IF o.ok
      THEN th' = [th EXCEPT ![i]["w"] = [t EXCEPT !.pc = "loop", !.due = now + CHK, !.op = NoOp]] /\ UNCHANGED <<el, wq>>
-     ELSE \* Watch failed: the loop returns (deferred: watcherRunning := false)
-          /\ th' = [th EXCEPT ![i]["w"] = Idle]
-          /\ el' = [el EXCEPT ![i].wrun = FALSE] /\ UNCHANGED wq
+     ELSE IF Dv("watch_failure_gives_up")
+          THEN \* (before the fix) Watch failed: the loop returns (deferred: watcherRunning := false)
+               /\ th' = [th EXCEPT ![i]["w"] = Idle]
+               /\ el' = [el EXCEPT ![i].wrun = FALSE] /\ UNCHANGED wq
+          ELSE \* Watch failed: retry after 500 ms, with the periodic check in between
+               /\ th' = [th EXCEPT ![i]["w"] = [t EXCEPT !.pc = "wsleep", !.due = now + CHK, !.op = NoOp]]
+               /\ UNCHANGED <<el, wq>>
   /\ UNCHANGED <<now, rec, seq, ntok, orph, g>>
+
+\* the retry timer of a failed Watch call: periodic check (followers), then the next Watch call
+WatchRetry(i) ==
+  LET t == T(i, "w") IN
+  /\ t.pc = "wsleep" /\ t.due <= now /\ ~CtxDone(i, t)
+  /\ th' = [th EXCEPT ![i]["w"] = IF el[i].leader THEN [t EXCEPT !.pc = "open", !.op = MkOp("watch", 0, 0)]
+                                   ELSE [t EXCEPT !.pc = "chk", !.op = MkOp("get", 0, 0), !.aux = 1]]
+  /\ UNCHANGED <<now, rec, seq, ntok, wq, el, orph, g>>
 
 \* ctx.Done(): watcher.Stop(), watcherRunning := false
 WatchExit(i) ==
   LET t == T(i, "w") IN
-  /\ t.pc = "loop" /\ CtxDone(i, t)
+  /\ t.pc \in {"loop", "wsleep"} /\ CtxDone(i, t)
   /\ th' = [th EXCEPT ![i]["w"] = Idle]
   /\ el' = [el EXCEPT ![i].wrun = IF t.gen = el[i].gen THEN FALSE ELSE @]
   /\ wq' = [wq EXCEPT ![i] = IF t.gen = el[i].gen \/ TRUE THEN <<>> ELSE @]
@@ -590,7 +604,8 @@ CheckTick(i) ==
 CheckResp(i) ==
   LET t == T(i, "w") o == t.op e == el[i] IN
   /\ t.pc = "chk" /\ o.ph = "app"
-  /\ LET back == [t EXCEPT !.pc = "loop", !.op = NoOp, !.due = IF @ + CHK > now THEN @ + CHK ELSE now + 1]
+  /\ LET back == IF t.aux = 1 THEN [t EXCEPT !.pc = "open", !.op = MkOp("watch", 0, 0), !.aux = 0]     \* the check between two Watch calls
+                 ELSE [t EXCEPT !.pc = "loop", !.op = NoOp, !.due = IF @ + CHK > now THEN @ + CHK ELSE now + 1]
          st0 == [Cur3(i) EXCEPT !.t["w"] = back]
      IN IF e.leader THEN Commit(i, st0)                     \* checkKeyAndReelect: if e.IsLeader() return (checked before the Get only; the stores are guarded)
         ELSE IF ~o.ok \/ o.rcls = "empty"                   \* no key, or a zero-length value: re-election
@@ -698,8 +713,10 @@ ApiGetResp(i) ==
 Disconnect(i) ==
   /\ CONN[i] /\ g.connev < MaxConnEv /\ el[i].life = "running"
   /\ LET e == el[i] IN
+     \* every notification restarts the timer (before the fix: only while leading, so that a timer armed in an earlier term
+     \* kept running through a notification received as follower)
      el' = [el EXCEPT ![i] = [e EXCEPT !.conn = "disconnected", !.lastDisc = now,
-                                       !.grace = IF e.leader THEN now + GRACE ELSE e.grace,
+                                       !.grace = IF e.leader \/ ~Dv("disconnect_ignored_while_follower") THEN now + GRACE ELSE e.grace,
                                        !.pdue = IF e.leader THEN now + GRACE ELSE e.pdue]]
   /\ g' = [g EXCEPT !.connev = @ + 1, !.quiet = FALSE]
   /\ UNCHANGED <<now, rec, seq, ntok, wq, th, orph>>
@@ -754,7 +771,7 @@ VerifyGetResp(i) ==
 \* time
 TimerSlots == {"hb", "val", "w"} \cup {RN(k) : k \in Rounds}
 Due(i, s) == LET t == T(i, s) IN
-  \/ t.pc \in {"wait", "jit", "bo"} /\ t.due <= now
+  \/ t.pc \in {"wait", "jit", "bo", "wsleep"} /\ t.due <= now
   \/ s = "w" /\ t.pc = "loop" /\ t.due <= now
   \/ s = "hb" /\ t.pc = "upd" /\ t.op.at + UT <= now
 \* responsive store: an operation must not stay unanswered longer than LAT
@@ -764,6 +781,7 @@ Ready(i, s) == LET t == T(i, s) IN
   \/ t.pc = "start" \/ t.pc = "fin" \/ t.pc = "health"
   \/ t.op.ph = "app"
   \/ s = "w" /\ t.pc = "loop" /\ (wq[i] # <<>> \/ CtxDone(i, t))
+  \/ s = "w" /\ t.pc = "wsleep" /\ CtxDone(i, t)
   \/ s = "stp" /\ t.pc = "wait" /\ WgIdle(i)
   \/ s \in {"hb", "val"} /\ t.pc \in {"upd", "get", "health"} /\ TermDone(i, t)
 
@@ -800,7 +818,7 @@ Next ==
        \/ TkoStart(i)
        \/ HbTick(i) \/ HbUpdateResp(i) \/ HbTimeout(i) \/ HbCancelled(i) \/ \E b \in BOOLEAN : HbHealth(i, b)
        \/ ValTick(i) \/ ValGetResp(i) \/ ValCancelled(i)
-       \/ WatchOpenResp(i) \/ WatchExit(i) \/ WatchEvent(i) \/ CheckTick(i) \/ CheckResp(i)
+       \/ WatchOpenResp(i) \/ WatchRetry(i) \/ WatchExit(i) \/ WatchEvent(i) \/ CheckTick(i) \/ CheckResp(i)
        \/ Partition(i) \/ Heal(i) \/ DropEvent(i)
        \/ \E v \in BOOLEAN : ApiValidate(i, v)
        \/ ApiGetResp(i)
@@ -831,6 +849,9 @@ C19_Ctx == \A i \in Inst : /\ (el[i].leader /\ el[i].termAlive => el[i].term \in
 \* (only evaluated while no store fault has been injected; lost watch events are allowed)
 MaxJit == CHOOSE j \in JIT : \A k \in JIT : k <= j
 C06_Filled == (g.vacSince >= 0 /\ g.faults = 0 /\ \E j \in Inst : ReadyCand(j)) => now <= g.vacSince + CHK + MaxJit + 6 * LAT + 2
+\* ... and after a transient failure (a failed or unanswered operation, a lost notification) has ceased the same bound applies again
+C06_Recovers == (g.vacSince >= 0 /\ g.lastFault >= 0 /\ (\A j \in Inst : ~el[j].part) /\ \E j \in Inst : ReadyCand(j))
+                => now <= (IF g.vacSince > g.lastFault THEN g.vacSince ELSE g.lastFault) + CHK + MaxJit + 5 * LAT + 1
 \* C11: the leader is demoted when the grace period since the latest disconnect elapses without a reconnect
 C11_Grace == \A i \in Inst : el[i].pdue >= 0 /\ el[i].leader => now <= el[i].pdue
 \* C03: without store faults a leader whose record was lost is demoted by the completion of its next refresh
